@@ -1,5 +1,7 @@
 //! C07 — write capability is required to author entries and is never lost.
 
+use std::collections::BTreeMap;
+
 use iroh_docs::{
     actor::{OpenOpts, SyncHandle},
     store::{ImportNamespaceOutcome, Store},
@@ -24,7 +26,7 @@ pub fn def() -> PropDef {
     PropDef {
         id: "C07",
         level: "model_checking",
-        rule: "explicit-state search over {import read-only Ni, import write Ni, local insert Ni, local delete Ni, remote insert Ni (validly signed), reopen the store, list documents, list authors, take a handle with open_replica and keep the document marked open, close_replica} on a file-backed Store (while a document is marked open, write attempts go through one more handle from open_replica), and over the same events plus {open Ni, close Ni, export secret Ni} through the store actor (SyncHandle; reopen = shutdown, reopen the file, respawn), for two documents; model: per document the maximum capability ever imported; after every event list_namespaces kinds, export_secret_key, the outcome of every write attempt and both documents' entries are compared with the model; canonical state = (listed kinds, entries, open handles, exportability); non-trivial = histories in which a read-only import or a reopen follows a write import",
+        rule: "explicit-state search over {import read-only Ni, import write Ni, local insert Ni, local delete Ni, remote insert Ni (validly signed), reopen the store, list documents, list authors, take a handle with open_replica and keep the document marked open, close_replica} on a file-backed Store (while a document is marked open, write attempts go through one more handle from open_replica), and over the same events plus {open Ni, close Ni, export secret Ni} through the store actor (SyncHandle; reopen = shutdown, reopen the file, respawn), for two documents; model: per document the maximum capability ever imported; after every event list_namespaces kinds, export_secret_key, the outcome of every write attempt and both documents' entries are compared with the model; canonical state = (listed kinds, entries, open handles, exportability); family api: every history of <= 4 (thorough 5) events over {import read-only / write capability, write, delete, close all handles} x two documents through the docs API of a real Engine (DocsApi -> RpcActor -> store actor): write attempts succeed exactly with the greatest capability imported and the listing shows it; non-trivial = histories in which a read-only import or a reopen follows a write import",
         assumptions: &["two documents, one author, one local key and one remote key per document"],
         bound: |t| match t {
             Tier::Quick => json!({"direct": "depth <= 7 (11 events)", "actor": "depth <= 6 (17 events)"}),
@@ -574,8 +576,202 @@ fn events(actor: bool) -> Vec<Ev> {
     v
 }
 
+// ---------------------------------------------------------------------------------------
+// Family "api": the same capability state machine through the docs API of a node (the path
+// every ticket import takes: DocsApi -> RpcActor -> store actor), on a real Engine.
+// ---------------------------------------------------------------------------------------
+
+#[derive(Debug, Clone, Copy, PartialEq, Eq, Serialize, Deserialize)]
+pub enum ApiEv {
+    ImportRead(u8),
+    ImportWrite(u8),
+    /// write through the most recent handle (or a freshly opened one)
+    Write(u8),
+    Delete(u8),
+    /// close every handle of the document
+    CloseAll(u8),
+}
+
+fn api_events() -> Vec<ApiEv> {
+    let mut v = vec![];
+    for d in 0..2u8 {
+        v.extend([ApiEv::ImportRead(d), ApiEv::ImportWrite(d), ApiEv::Write(d), ApiEv::Delete(d), ApiEv::CloseAll(d)]);
+    }
+    v
+}
+
+struct ApiNode {
+    docs: iroh_docs::protocol::Docs,
+    author: iroh_docs::AuthorId,
+    _blobs: iroh_blobs::store::mem::MemStore,
+}
+
+async fn api_node() -> anyhow::Result<ApiNode> {
+    use iroh::endpoint::presets;
+    let ep = iroh::Endpoint::builder(presets::Minimal)
+        .secret_key(iroh::SecretKey::from_bytes(&[0x37; 32]))
+        .bind()
+        .await
+        .map_err(|e| anyhow::anyhow!("bind: {e}"))?;
+    let gossip = iroh_gossip::net::Gossip::builder().spawn(ep.clone());
+    let blobs = iroh_blobs::store::mem::MemStore::new();
+    let docs = iroh_docs::protocol::Docs::memory().spawn(ep, (*blobs).clone(), gossip).await?;
+    let author = docs.api().author_create().await?;
+    Ok(ApiNode { docs, author, _blobs: blobs })
+}
+
+/// One history on fresh documents (namespace secrets derived from `salt`) of a shared node.
+async fn exec_api(node: &ApiNode, hist: &[ApiEv], salt: u64) -> Bad {
+    use n0_future::StreamExt;
+    let api = node.docs.api();
+    let mut bad: Bad = vec![];
+    let secrets: Vec<iroh_docs::NamespaceSecret> = (0..2u8)
+        .map(|d| {
+            let mut b = [0u8; 32];
+            b[..8].copy_from_slice(&salt.to_le_bytes());
+            b[8] = d;
+            b[9] = 0xA7;
+            iroh_docs::NamespaceSecret::from_bytes(&b)
+        })
+        .collect();
+    let ids: Vec<iroh_docs::NamespaceId> = secrets.iter().map(|s| s.id()).collect();
+    let mut cap: [Option<Cap>; 2] = [None, None];
+    let mut handles: [Vec<iroh_docs::api::Doc>; 2] = [vec![], vec![]];
+    for (n, ev) in hist.iter().enumerate() {
+        let last = n + 1 == hist.len();
+        match *ev {
+            ApiEv::ImportRead(d) | ApiEv::ImportWrite(d) => {
+                let write = matches!(ev, ApiEv::ImportWrite(_));
+                let c = if write { Capability::Write(secrets[d as usize].clone()) } else { Capability::Read(ids[d as usize]) };
+                match api.import_namespace(c).await {
+                    Ok(doc) => handles[d as usize].push(doc),
+                    Err(e) => {
+                        if last {
+                            bad.push(("import_ok", json!({"api": true}), format!("{ev:?}: {e:#}")));
+                        }
+                    }
+                }
+                let want = if write { Cap::Write } else { Cap::Read };
+                cap[d as usize] = Some(cap[d as usize].map(|c| c.max(want)).unwrap_or(want));
+            }
+            ApiEv::Write(d) | ApiEv::Delete(d) => {
+                let doc = match handles[d as usize].last() {
+                    Some(h) => Some(h.clone()),
+                    None => match api.open(ids[d as usize]).await {
+                        Ok(Some(h)) => {
+                            handles[d as usize].push(h.clone());
+                            Some(h)
+                        }
+                        _ => None,
+                    },
+                };
+                let got_ok = match &doc {
+                    None => false,
+                    Some(doc) => {
+                        if matches!(ev, ApiEv::Delete(_)) {
+                            doc.del(node.author, format!("k{n}")).await.is_ok()
+                        } else {
+                            doc.set_bytes(node.author, format!("k{n}"), format!("v{n}")).await.is_ok()
+                        }
+                    }
+                };
+                let want_ok = cap[d as usize] == Some(Cap::Write);
+                if got_ok != want_ok && last {
+                    bad.push((
+                        "write_attempt_outcome",
+                        json!({"api": true, "read_only_replica_authored_entry": got_ok && !want_ok, "write_capability_lost": want_ok && !got_ok}),
+                        format!("docs API, history {hist:?}: {ev:?} succeeded={got_ok}, the greatest capability imported for the document is {:?}", cap[d as usize]),
+                    ));
+                }
+            }
+            ApiEv::CloseAll(d) => {
+                for h in handles[d as usize].drain(..) {
+                    let _ = h.close().await;
+                }
+            }
+        }
+        if !last {
+            continue;
+        }
+        // listing
+        let mut listed: BTreeMap<iroh_docs::NamespaceId, String> = BTreeMap::new();
+        match api.list().await {
+            Err(e) => bad.push(("list_ok", json!({"api": true}), format!("{e:#}"))),
+            Ok(mut st) => {
+                while let Some(item) = st.next().await {
+                    if let Ok((id, kind)) = item {
+                        listed.insert(id, kind.to_string());
+                    }
+                }
+            }
+        }
+        for d in 0..2usize {
+            let got = listed.get(&ids[d]).cloned();
+            let want = cap[d].map(|c| if c == Cap::Write { iroh_docs::CapabilityKind::Write.to_string() } else { iroh_docs::CapabilityKind::Read.to_string() });
+            if got != want {
+                bad.push((
+                    "listed_capabilities_equal_max_imported",
+                    json!({"api": true}),
+                    format!("docs API, history {hist:?}: document {d} is listed as {got:?}, the greatest capability imported is {want:?}"),
+                ));
+            }
+        }
+    }
+    for hs in handles.iter_mut() {
+        for h in hs.drain(..) {
+            let _ = h.close().await;
+        }
+    }
+    bad
+}
+
+fn run_api_family(ctx: &Ctx, report: &mut Report) {
+    let evs = api_events();
+    let depth = if ctx.quick() { 4 } else { 5 };
+    let mut cases: Vec<(u64, Vec<ApiEv>)> = vec![];
+    let mut ordinal = 1u64 << 43;
+    for d in 1..=depth {
+        crate::util::for_each_sequence(evs.len(), d, |ix| {
+            ordinal += 1;
+            if ctx.mine(ordinal) {
+                cases.push((ordinal, ix.iter().map(|&i| evs[i]).collect()));
+            }
+        });
+    }
+    let results: anyhow::Result<Vec<(u64, Vec<ApiEv>, Bad)>> = block_on(async {
+        let node = api_node().await?;
+        let mut out = vec![];
+        for (ord, hist) in cases {
+            let bad = exec_api(&node, &hist, ord).await;
+            out.push((ord, hist, bad));
+        }
+        use iroh::protocol::ProtocolHandler;
+        node.docs.shutdown().await;
+        Ok(out)
+    });
+    match results {
+        Err(e) => report.machinery_error(format!("docs API family: cannot set up a node: {e:#}")),
+        Ok(rs) => {
+            for (ord, hist, bad) in rs {
+                report.evaluations += 1;
+                report.traces += 1;
+                report.transitions += hist.len() as u64;
+                if hist.iter().any(|e| matches!(e, ApiEv::ImportWrite(_))) {
+                    report.nontrivial += 1;
+                }
+                report.count("docs_api_histories", 1);
+                let case = json!({"api_hist": hist, "salt": ord});
+                for (o, w, d) in bad {
+                    report.violation(o, w, case.clone(), d, ord);
+                }
+            }
+        }
+    }
+}
+
 fn run(ctx: &Ctx, report: &mut Report) {
     crate::util::silence_panics();
+    run_api_family(ctx, report);
     for actor in [false, true] {
         let depth = match (ctx.tier, actor) {
             (Tier::Quick, false) => 7,
@@ -621,6 +817,20 @@ fn run(ctx: &Ctx, report: &mut Report) {
 }
 
 fn replay(case: &Value) -> anyhow::Result<(bool, String)> {
+    if let Some(h) = case.get("api_hist") {
+        let hist: Vec<ApiEv> = serde_json::from_value(h.clone())?;
+        let salt = case["salt"].as_u64().unwrap_or(1);
+        let bad: anyhow::Result<Bad> = block_on(async {
+            let node = api_node().await?;
+            let b = exec_api(&node, &hist, salt).await;
+            use iroh::protocol::ProtocolHandler;
+        node.docs.shutdown().await;
+            Ok(b)
+        });
+        let bad = bad?;
+        let out: String = bad.iter().map(|(o, _, d)| format!("FAILED {o}: {d}\n")).collect();
+        return Ok((!bad.is_empty(), format!("docs API history {hist:?}\n{out}")));
+    }
     let actor = case["actor"].as_bool().unwrap_or(false);
     let hist: Vec<Ev> = serde_json::from_value(case["hist"].clone())?;
     match catch(|| if actor { exec_actor(&hist) } else { exec_direct(&hist) }) {
